@@ -55,6 +55,7 @@ func baseOptions(env *core.Env, i int, r *rand.Rand) sim.Options {
 		StepBudget:  150000,
 		StoreYield:  r.Intn(2) == 0,
 		Relist:      r.Intn(3) == 0,
+		Stall:       []time.Duration{0, 0, 30 * time.Second, 90 * time.Second}[r.Intn(4)],
 	}
 }
 
@@ -134,7 +135,7 @@ func collect(spec *simSpec, env *core.Env, i int, sc simCase, w *sim.World, wl *
 	for k, v := range w.Mon.Evals {
 		res.Count("mon_"+k, v)
 	}
-	for _, k := range []string{"crashes", "quiescent_points", "step_resume", "step_deliver", "clock_advances", "step_relist", "relist_tombstones"} {
+	for _, k := range []string{"crashes", "quiescent_points", "step_resume", "step_deliver", "clock_advances", "step_relist", "relist_tombstones", "stalled_clock_advances"} {
 		res.Count(k, w.Stat[k])
 	}
 	res.Count("mode_"+sc.Opt.Mode, 1)
